@@ -63,11 +63,32 @@ claim("C17",
       "DESIGN.md §6 C17")
 
 claim("C18",
-      "Vanilla spray and wait: SenderForBundle spends exactly one copy per selected sender, never the last copy (remaining >= 1 whenever it was), appends as many peers to the sent list as it selects "
-      "and selects nothing without metadata or with fewer than two copies (loop invariants over an unbounded sender list); ReportFailure gives exactly one copy back and removes at most one sent entry.",
-      "Sequential histories only (concurrent failure reports not decided); membership clauses (selected peers not in the old sent list) and BinarySpray not yet under contract; cla.Manager.Sender and "
-      "BundleDescriptor.MustBundle are assumed contracts.",
+      "Vanilla spray and wait: SenderForBundle spends exactly one copy per selected sender, never the last copy, appends as many peers to the sent list as it selects and selects nothing without metadata or "
+      "with fewer than two copies (loop invariants over an unbounded sender list); ReportFailure gives a copy back exactly for a peer in the sent list and removes that entry, and changes nothing for any other peer. "
+      "Binary spray: SenderForBundle selects at most one peer not in the sent list, keeps rem - rem/2, writes rem/2 into the bundle's spray block (existing or newly added) and leaves the count alone when nobody is "
+      "selected; ReportFailure returns the announced copies to the kept count; NotifyNewBundle initialises the budget (L for own bundles, 1 resp. the announced count for relayed ones) and remembers the previous node.",
+      "Sequential histories only (concurrent failure reports not decided). Assumed: cla.Manager.Sender, BundleDescriptor.MustBundle (loaded bundle is well-typed, one block per type), Bundle.AddExtensionBlock "
+      "(adds exactly the given block). The global bound 'at most L-1 transmissions' follows from these per-operation contracts by induction over sequential histories; the induction itself is not mechanised.",
       "DESIGN.md §6 C18")
+
+claim("C12",
+      "BBC: fragment header bit layout and accessors; NewIncomingTransmission/ReadFragment accept exactly the successor sequence number (mod 16) of an unfinished transmission with matching id and no start bit and then "
+      "append exactly the fragment's bytes, any other fragment is an error that changes nothing; WriteFragment cuts at most MTU-2 bytes, start mark on the first and end mark exactly on the last fragment, consecutive "
+      "sequence numbers, payload partition (quantified over all bytes); the connector forgets a transmission and returns the error when a fragment does not continue it.",
+      "MTCP framing, Connector.handleIncomingFragment (defer + channels) and Connector.Send loop are not yet under contract; xz compression, modem transport and concurrency are outside this family.",
+      "DESIGN.md §6 C12")
+
+claim("C13",
+      "filterCLAs returns only senders whose peer is not in the bundle's sent list, each once, and the new list is the old one followed by the selected peers (quantified loop invariants); epidemic ReportFailure removes "
+      "exactly the first entry equal to the failed peer and nothing when the peer is absent; spray variants: selected peers are not in the old sent list, NotifyNewBundle records the previous node, ReportFailure removes the failed peer.",
+      "Store persistence (badgerhold) and QueryId/Update are assumed contracts; PRoPHET/DTLSR NotifyNewBundle and Core.receive/forward call sites not yet under contract; racing failure reports not decided.",
+      "DESIGN.md §6 C13")
+
+claim("C15",
+      "NewStatusReport names the subject's exact bundle id (source, timestamp, fragment flag/offset/length), asserts exactly the reported status, carries a time only if requested; Core.SendStatusReport emits nothing for "
+      "administrative records or when the report-to endpoint is local, otherwise exactly one bundle addressed to the report-to endpoint with control flags == administrative-record only.",
+      "The five call sites in receive/forward/localDelivery/bundleDeletion ('event happened and was requested') are not yet under contract; Core.SendBundle, HasEndpoint and the builder's clock/lifetime steps are assumed contracts.",
+      "DESIGN.md §6 C15")
 
 claim("C19",
       "In real arithmetic: encounter keeps every predictability in [0,1] and never lowers one, ageing never raises one, the transitive update (loop over the peer's map in arbitrary order) keeps all values in [0,1] "
@@ -75,7 +96,7 @@ claim("C19",
       "float64 treated as mathematical reals (IEEE rounding/NaN not modelled); the forwarding gate (SenderForBundle) and concurrent map access are not decided yet.",
       "DESIGN.md §6 C19")
 
-for pid in ["C04","C05","C07","C09","C10","C12","C13","C15","C20"]:
+for pid in ["C04","C05","C07","C09","C10","C20"]:
     na(pid, UNBUILT)
 na("C08", "Durability across restarts/crash points and concurrent pushes are history properties of badgerhold/gob/the file system; "
           "the in-repo code is a thin reflection-driven wrapper; no function contract within reach can express or decide them (DESIGN.md §7).")
